@@ -143,6 +143,18 @@ pub fn gen_session(r: &mut Xo, max_batches: usize) -> Session {
             b
         })
         .collect();
+    let mut batches: Vec<Vec<TriggerEvent>> = batches;
+    if max_batches >= 40 && r.chance(1, 1000) {
+        // scale: one batch of more than 2^16 events - a busy head, then a long quiet tail of one and the same event,
+        // so that what the head scheduled is still pending when the call returns
+        let total = r.range(65_537, 70_000) as usize;
+        let head = r.range(1, 40) as usize;
+        let mut b: Vec<TriggerEvent> = (0..head).map(|_| eg.next_event(r, n, true)).collect();
+        let quiet = r.pick(&[TriggerEvent::TunnelRecv, TriggerEvent::TunnelSent, TriggerEvent::PaddingRecv, TriggerEvent::NormalRecv, TriggerEvent::NormalSent]).clone();
+        b.resize(total, quiet);
+        let at = r.below(batches.len() as u64 + 1) as usize;
+        batches.insert(at, b);
+    }
     Session { machines, strings, pf: *r.pick(&[0.0, 0.0, 0.5, 1.0]), batches }
 }
 
@@ -435,6 +447,7 @@ impl Prop for C20 {
         out.add("batches_compared", st.batches);
         out.add("actions_compared_field_by_field", st.actions);
         out.add("batches_with_unknown_machine_ids", st.unknown_id_batches);
+        out.add("batches_of_more_than_65536_events", s.batches.iter().filter(|b| b.len() > 65_536).count() as u64);
         out.add("refused_calls_in_the_middle_of_sessions", st.refused_calls_inside_sessions);
         for (k, name) in ["actions_cancel", "actions_padding", "actions_blocking", "actions_timer"].iter().enumerate() {
             out.add(name, st.kinds[k]);
